@@ -578,6 +578,7 @@ func delayedCreateSession(cl string, attempts int) func(w *world, x *mc.X, r *re
 			x.ResetLocal(fmt.Sprintf("create%d", i))
 			res := w.compound(1, "CREATE_SESSION", createSessionArgs(id, seq))
 			r.set(fmt.Sprintf("cs%d", i), fmt.Sprintf("%d:%x", res.Status, encodeRes(res)))
+			noteSession41(r, res)
 			if res.Status == nfsv4.NFS4_OK {
 				break
 			}
@@ -627,6 +628,7 @@ func createSessionRetransmissions(attempts int) func(w *world, x *mc.X, r *resul
 		}
 		if success == "" {
 			res := w.compound(1, "CREATE_SESSION(after the old incarnation's request returned)", createSessionArgs(id, seq))
+			noteSession41(r, res)
 			reply := fmt.Sprintf("%d:%x", res.Status, encodeRes(res))
 			judge("CREATE_SESSION retransmitted after the old incarnation's request had returned", reply, true)
 			if success == "" {
@@ -764,10 +766,10 @@ func scenarios() []*mc.Scenario {
 		// being executed, then retransmitted with the same csa_sequence.
 		concScenario(concSpec{name: "c41-create-session-delayed-write", props: []string{"C19", "C18"}, liveness: c19, prefix: p41,
 			threads: []concThread{{"io", raw41("d1", 0, "WRITE", ops41io(ioWrite, "d1", "O1", "a"))}, {"register", delayedCreateSession("d1", 2)}},
-			finish:  createSessionRetransmissions(2)}),
+			finish:  both(createSessionRetransmissions(2), reregistered41("d1", "O1", "a"))}),
 		concScenario(concSpec{name: "c41-create-session-delayed-open", props: []string{"C19", "C18"}, liveness: c19, prefix: prefix41Session("d1"),
 			threads: []concThread{{"open", dup41("original", "d1", 0, "a")}, {"register", delayedCreateSession("d1", 2)}},
-			finish:  createSessionRetransmissions(2)}),
+			finish:  both(createSessionRetransmissions(2), reregistered41("d1", "", ""))}),
 	)
 	return out
 }
